@@ -56,7 +56,11 @@ fn float_literal(rng: &mut Rng) -> String {
                 "1.7976931348623157e308", "1.7976931348623158e308", "1.7976931348623159e308", "1.8e308", "1e309", "-1e309", "3.4028234e38", "3.4028235e38", "3.4028236e38",
                 "3.40282356779733661637539395458142568448e38", "3.4028235677973366e38", "3.5e38", "-3.5e38", "4.9e-324", "2.4703282292062327e-324", "2.4703282292062328e-324",
                 "2.5e-324", "1e-400", "-1e-400", "1.4e-45", "7.0064923216240853e-46", "7.0064923216240854e-46", "7.1e-46", "2.2250738585072014e-308", "2.2250738585072011e-308",
-                "1.17549435e-38", "1.1754942e-38", "9007199254740993", "9007199254740992.5", "16777217", "16777216.5", "0.1", "0.3", "1e23", "8.41e21", "9.5367431640625e-7",
+                "1.17549435e-38", "1.1754942e-38",
+                // the numbers SCPI uses as sentinels in responses are ordinary finite literals as parameters
+                "9.9e37", "9.9E+37", "-9.9E37", "-9.9e+37", "9.91E37", "9.91e+37", "-9.91e37", "99e36", "991e35", "9.90e37", "0.99e38", "0.991E+38", "9.9000001E37", "9.8e37", "9.92e37",
+                "99000000000000000000000000000000000000", "99100000000000000000000000000000000000.0", "-99000000000000000000000000000000000000",
+                "9007199254740993", "9007199254740992.5", "16777217", "16777216.5", "0.1", "0.3", "1e23", "8.41e21", "9.5367431640625e-7",
             ])
             .to_string()
         }
